@@ -398,7 +398,7 @@ def gen_cases(ctx):
         # exhaustive below first calls that mark one or two cells (27216 + 6 histories of 3 calls);
         # below the first call marking all three cells (46656 histories) the later subsets are sampled
         for mask in (1, 2, 4, 3, 5, 6):
-            cases.append({'cfg': cfg([uniform_axis(2, 3)], 1, False), 'mode': 'tree', 'depth': 3, 'max_nodes': 9000,
+            cases.append({'cfg': cfg([uniform_axis(2, 3)], 1, False), 'mode': 'tree', 'depth': 3, 'max_nodes': 14000,
                           'root_masks': [mask], 'seed': rng.randrange(1 << 30), 'what': '1d-n3-depth3', 'light': True})
         cases.append({'cfg': cfg([uniform_axis(2, 3)], 1, False), 'mode': 'tree', 'depth': 3, 'max_nodes': 5000,
                       'root_masks': [7], 'seed': rng.randrange(1 << 30), 'what': '1d-n3-depth3-sampled', 'light': True})
